@@ -459,7 +459,9 @@ func takePenalty(currentDB *state.StateDB, val *state.Validator, penaltyAmount *
 	}
 
 	// second, take penalty from staking
-	newVal = val.PartialCopy()
+	// (a deep copy: the loop below edits the delegation records in place, and val must stay the record
+	// that was stored before, because the journal restores it on revert)
+	newVal = val.DeepCopy()
 	fromDeposit := fromWithdraw // just for clear
 	if penaltyAmount.Sign() > 0 {
 		if selfPenalty.Sign() > 0 {
